@@ -412,7 +412,7 @@ struct QueueEngine : Engine
 	uint64_t units(Args const& a) override
 	{
 		routes = make_routes(a.thorough());
-		L = a.thorough() ? 4 : 3; NK = a.thorough() ? 7 : 5;
+		L = a.thorough() ? 4 : 3; NK = 7; // every packet kind may come first; longer sequences use the first five kinds (see kind_limit)
 		want09 = a.property != "C10"; want10 = a.property != "C09";
 		traffic = make_traffic(a.thorough());
 		return routes.size() * uint64_t(NK) + traffic.size(); // unit = (route, kind of first packet), then one unit per traffic scenario
@@ -440,8 +440,10 @@ struct QueueEngine : Engine
 		size_t ri = size_t(u / uint64_t(NK)); int k0 = int(u % uint64_t(NK));
 		Route const& r = routes[ri];
 		int maxlen = L; if (r.q.size() > 1 || r.reflect) maxlen = std::min(L, 3);
-		// thorough: sequences of 4 packets use the first 5 packet kinds only (7 kinds up to length 3)
-		if (L >= 4 && k0 >= 5) maxlen = std::min(maxlen, 3);
+		// all 7 packet kinds up to length 2 (thorough: 3); the longest sequences use the first 5 kinds only
+		bool const thorough_ = L >= 4;
+		auto kind_limit = [&](int len) { return len >= (thorough_ ? 4 : 3) ? 5 : 7; };
+		if (k0 >= 5) maxlen = std::min(maxlen, thorough_ ? 3 : 2);
 		// odometer over (kind, gap-index) for packets 1..len-1
 		for (int len = 1; len <= maxlen; ++len) {
 			std::vector<int> kinds(size_t(len), 0), gaps(size_t(len), 0); kinds[0] = k0;
@@ -466,7 +468,7 @@ struct QueueEngine : Engine
 				int i = len - 1;
 				for (; i >= 1; --i) {
 					if (++gaps[size_t(i)] < 7) break; gaps[size_t(i)] = 0;
-					if (++kinds[size_t(i)] < (len >= 4 ? 5 : NK)) break; kinds[size_t(i)] = 0;
+					if (++kinds[size_t(i)] < kind_limit(len)) break; kinds[size_t(i)] = 0;
 				}
 				if (i < 1) break;
 			}
